@@ -63,3 +63,67 @@ def linearizable(model0, ops, apply, suffix=None, suffix_results=None):
 
     w = rec(copy.deepcopy(model0), {t: 0 for t in tids}, [])
     return (w is not None), w
+
+
+def linearizable_by_replay(make_instance, ops, apply, suffix=None, suffix_results=None, node_cap=200_000):
+    """Like `linearizable`, but the sequential specification is the component's OWN
+    single-threaded behaviour: a candidate order is valid if replaying it on a fresh
+    instance (built by make_instance(), which also replays the initial history)
+    reproduces every result and the probe-suffix results.  This is exactly C17's
+    statement ("results equal to some sequential ordering of the same operations")
+    and stays silent on purely sequential bugs, which are other properties' business."""
+    by_thread = {}
+    for o in ops:
+        by_thread.setdefault(o["tid"], []).append(o)
+    for lst in by_thread.values():
+        lst.sort(key=lambda o: o["i"])
+    tids = sorted(by_thread)
+    n = len(ops)
+    nodes = [0]
+
+    def replay(order):
+        inst = make_instance()
+        for o in order:
+            if apply(inst, o["name"], o["arg"]) != o["result"]:
+                return None
+        return inst
+
+    def rec(pos, order):
+        nodes[0] += 1
+        if nodes[0] > node_cap:
+            raise RuntimeError("linearizability search exceeded its node cap")
+        if len(order) == n:
+            inst = replay(order)
+            if inst is None:
+                return None
+            if suffix:
+                for (name, arg), want in zip(suffix, suffix_results):
+                    if apply(inst, name, arg) != want:
+                        return None
+            return [(o["tid"], o["i"]) for o in order]
+        for t in tids:
+            if pos[t] >= len(by_thread[t]):
+                continue
+            o = by_thread[t][pos[t]]
+            blocked = False
+            for u in tids:
+                for p in by_thread[u][pos[u]:]:
+                    if p is not o and p["ret"] < o["inv"]:
+                        blocked = True
+                        break
+                if blocked:
+                    break
+            if blocked:
+                continue
+            cand = order + [o]
+            if replay(cand) is None:     # prefix already inconsistent: prune
+                continue
+            pos[t] += 1
+            w = rec(pos, cand)
+            pos[t] -= 1
+            if w is not None:
+                return w
+        return None
+
+    w = rec({t: 0 for t in tids}, [])
+    return (w is not None), w
